@@ -20,7 +20,7 @@ get_slice_strides = Contract(
     target="cotengra.core:get_slice_strides",
     props=["C06"],
     params={"sliced_inds": SlicedIndsT},
-    lets={"n": "len(sliced_inds)", "infos": "sliced_inds.values()"},
+    lets={"n": "len(sliced_inds)", "infos": "list(sliced_inds.values())"},
     spec={"suf": SUF},
     requires=["forall(0, n, lambda k: infos[k].size >= 1)"],
     returns=Ty.List(Ty.Int),
@@ -44,3 +44,122 @@ get_slice_strides = Contract(
 )
 
 CONTRACTS = [get_slice_strides]
+
+
+TreeSlicingT = ObjT("ContractionTree", {"sliced_inds": SlicedIndsT})
+
+REM = """
+def rem(m):
+    return i if m <= 0 else (rem(m - 1) if infos[m - 1].project is not None else rem(m - 1) % suf(m - 1))
+"""
+DIG = """
+def dig(m):
+    return unopt(infos[m].project) if infos[m].project is not None else rem(m) // suf(m)
+"""
+WSUM = """
+def wsum(m):
+    return 0 if m <= 0 else wsum(m - 1) + (0 if infos[m - 1].project is not None else dig(m - 1) * suf(m - 1))
+"""
+
+slice_key = Contract(
+    target="cotengra.core:ContractionTree.slice_key",
+    props=["C06"],
+    self_type=TreeSlicingT,
+    params={"i": Ty.Int},
+    lets={
+        "n": "len(self.sliced_inds)",
+        "infos": "list(self.sliced_inds.values())",
+        "inds": "list(self.sliced_inds.keys())",
+    },
+    spec={"suf": SUF, "rem": REM, "dig": DIG, "wsum": WSUM},
+    requires=[
+        "forall(0, n, lambda k: infos[k].size >= 1)",
+        # SliceInfo invariant: a projected index has size 1
+        "forall(0, n, lambda k: implies(infos[k].project is not None, infos[k].size == 1))",
+        # i is a valid slice number: 0 <= i < product of all sliced sizes
+        "0 <= i and i < suf(-1)",
+    ],
+    lemmas=[
+        Lemma("suf_pos", "k", "-1", "n", "suf(k) >= 1", induction="down"),
+        Lemma("rem_range", "m", "0", "n", "0 <= rem(m) and rem(m) < suf(m - 1)", induction="up"),
+        # every digit is in range (or is the projected value)
+        Lemma("dig_range", "m", "0", "n - 1",
+              "infos[m].project is not None or (0 <= dig(m) and dig(m) < infos[m].size)", induction=None,
+              via=[
+                  "suf(m - 1) == suf(m) * infos[m].size",
+                  "suf(m) >= 1",
+                  "0 <= rem(m) and rem(m) < suf(m - 1)",
+                  "implies(infos[m].project is None, dig(m) == rem(m) // suf(m))",
+              ]),
+        # decode(encode(i)) == i : the slice number is the mixed-radix value of its key
+        Lemma("decode", "m", "0", "n", "i == wsum(m) + rem(m)", induction="up",
+              via=[
+                  "wsum(0) == 0 and rem(0) == i",
+                  "wsum(m + 1) == wsum(m) + (0 if infos[m].project is not None else dig(m) * suf(m))",
+                  "rem(m + 1) == (rem(m) if infos[m].project is not None else rem(m) % suf(m))",
+                  "implies(infos[m].project is None, dig(m) == rem(m) // suf(m))",
+                  "suf(m) >= 1",
+              ]),
+    ],
+    returns=Ty.Map(Ty.Key, Ty.Int),
+    hints={"key": Ty.Map(Ty.Key, Ty.Int)},
+    ensures=[
+        "forall(0, n, lambda k: inds[k] in result and result[inds[k]] == dig(k))",
+        "keys(result) == keys(self.sliced_inds)",
+        "old(i) == wsum(n)",
+        "forall(0, n, lambda k: implies(infos[k].project is None, 0 <= result[inds[k]] and result[inds[k]] < infos[k].size))",
+        "forall(0, n, lambda k: implies(infos[k].project is not None, result[inds[k]] == unopt(infos[k].project)))",
+    ],
+    nloops=1,
+    loops={
+        0: Loop(
+            pos="m",
+            inv=[
+                "len(strides) == n",
+                "forall(0, n, lambda k: strides[k] == suf(k))",
+                "i == rem(m)",
+                "forall(0, m, lambda k: inds[k] in key and key[inds[k]] == dig(k))",
+                "subset(keys(key), keys(self.sliced_inds))",
+            ],
+        )
+    },
+)
+
+CONTRACTS = [get_slice_strides, slice_key]
+
+
+# ---------------------------------------------------------------- generators
+def _rand_sliced_inds(rng, maxn=4):
+    from cotengra.core import SliceInfo
+
+    n = rng.randint(0, maxn)
+    labels = rng.sample("abcdefgh", n)
+    infos = []
+    for ix in labels:
+        if rng.random() < 0.3:
+            infos.append(SliceInfo(rng.random() < 0.5, ix, 1, rng.randint(0, 3)))
+        else:
+            infos.append(SliceInfo(rng.random() < 0.5, ix, rng.randint(1, 4), None))
+    infos.sort()
+    return {si.ind: si for si in infos}
+
+
+def _gen_strides(rng):
+    return {"args": (_rand_sliced_inds(rng),)}
+
+
+def _gen_slice_key(rng):
+    from cotengra.core import ContractionTree
+
+    sl = _rand_sliced_inds(rng)
+    tree = object.__new__(ContractionTree)
+    tree.sliced_inds = sl
+    tot = 1
+    for si in sl.values():
+        tot *= si.size
+    i = rng.randint(0, tot - 1)
+    return {"self": tree, "args": (i,), "describe": f"sliced_inds={list(sl.values())} i={i}"}
+
+
+get_slice_strides.gen = _gen_strides
+slice_key.gen = _gen_slice_key
